@@ -34,7 +34,11 @@ type Conn struct {
 	out      []byte
 	closed   bool
 	closedCh chan struct{}
-	Reads    int // number of Read calls that returned data
+	// stalledCh is closed when a Read finds the script exhausted and starts to wait (end
+	// Stall): the logical event "a read is waiting for bytes the peer will never send"
+	stalledCh   chan struct{}
+	stalledOnce sync.Once
+	Reads       int // number of Read calls that returned data
 	// WriteErrAfter: if >=0, writes fail once this many bytes have been accepted.
 	WriteErrAfter int
 	// TimeoutAfterBytes: if >0, the read that would go past this many delivered input bytes
@@ -50,7 +54,7 @@ type Conn struct {
 }
 
 func New(frags [][]byte, end End) *Conn {
-	return &Conn{frags: append([][]byte(nil), frags...), end: end, closedCh: make(chan struct{}), WriteErrAfter: -1}
+	return &Conn{frags: append([][]byte(nil), frags...), end: end, closedCh: make(chan struct{}), stalledCh: make(chan struct{}), WriteErrAfter: -1}
 }
 
 // Split cuts b at the given ascending offsets.
@@ -97,6 +101,7 @@ func (c *Conn) Read(p []byte) (int, error) {
 		case Timeout:
 			return 0, timeoutErr{}
 		case Stall:
+			c.stalledOnce.Do(func() { close(c.stalledCh) })
 			<-c.closedCh
 			return 0, net.ErrClosed
 		}
@@ -124,6 +129,9 @@ func (c *Conn) Read(p []byte) (int, error) {
 	c.mu.Unlock()
 	return n, nil
 }
+
+// Stalled is closed once a Read waits on the exhausted script (end Stall).
+func (c *Conn) Stalled() <-chan struct{} { return c.stalledCh }
 
 var ErrScriptedWrite = errors.New("scripted write error")
 
